@@ -49,6 +49,9 @@ ArchiveRule(e) ==
        THEN "C11 READER: bita info --metadata-key does not print the recorded value of the key"
   ELSE IF e.rec.total # sc.src_len \/ e.rec.src_sum # sc.src_sum THEN "C01 DESCRIBES: recorded source size / checksum is not the source's"
   ELSE IF ~AllTrue(e.slice_ok) THEN "C01 DESCRIBES: a rebuild entry's chunk hash does not match the source slice it stands for"
+  \* the format's own storage rule: stored size = source size MEANS uncompressed to every reader; such a chunk must hold the source bytes themselves
+  ELSE IF \E i \in 1..Len(e.stored_ok) : ~e.stored_ok[i] /\ e.rec.descs[i].asz = e.rec.descs[i].ssz
+       THEN "C11 FORMAT: a chunk recorded as uncompressed (stored size = source size) does not hold the source bytes"
   ELSE IF ~AllTrue(e.stored_ok) THEN "C01 DESCRIBES: a stored chunk does not decode to the chunk its descriptor names"
   ELSE IF sc.idlevel /\ (e.desc_ids # Expected(sc.src).descs \/ e.rec.order # IndexOrder(sc.src))
        THEN "C01 PIPELINE: descriptors / rebuild order differ from the first-occurrence order of the source chunks"
